@@ -434,7 +434,7 @@ def constEntries (keep : Spec → Bool) : List Spec → (iota : Nat) → (inh : 
       ({ kind := .const, name := n.n, id := n.id,
          cval := (eff[k]?).map (fun v => v.a * iota + v.b) } : Entry)
     (if keep (.value names values dirs tsels cms) then es else []) ++ constEntries keep rest (iota + 1) eff
-  | _ :: rest, iota, inh => constEntries keep rest (iota + 1) inh
+  | _ :: rest, iota, inh => constEntries keep rest iota inh   -- not a value spec: cannot occur in a const declaration
 
 def Spec.entries (tok : Tok) : Spec → List Entry
   | .type id name _ _ _ => [{ kind := .type, name := name, id := id }]
@@ -446,6 +446,7 @@ def Decl.entries : Decl → List Entry
   | .func f => [{ kind := .func, name := funcKey f, id := f.id, aux := f.sig.id }]
   | .gen tok _ _ specs =>
     if tok == .const then constEntries (fun _ => true) (specs.filterMap id) 0 []
+    else if tok == .imp then []      -- an import declaration declares no package-level name
     else (specs.filterMap id).flatMap (Spec.entries tok)
 
 def entries (f : File) : List Entry := (f.decls.filterMap id).flatMap Decl.entries
